@@ -312,6 +312,24 @@ func run(r *vk.Runner) {
 				case gpb.SObj:
 					reject(fmt.Sprintf("n%d:unknown-key", ni), "unknown-key", gpb.Render(sp, &gpb.RenderOpts{Target: ni, Variant: "addmember", Raw: `"zzUnknown":1`}), "object")
 					reject(fmt.Sprintf("n%d:unknown-key-null", ni), "unknown-key-null", gpb.Render(sp, &gpb.RenderOpts{Target: ni, Variant: "addmember", Raw: `"zzUnknown":null`}), "object")
+					// a second member of a proto oneof that is not exposed: the members are ordinary properties
+					// of the object, but the message can hold only one of them, so one of the two would be lost
+					if n.M != nil {
+						have := map[string]bool{}
+						for _, m := range n.Mem {
+							have[m.K] = true
+						}
+						for _, f := range n.M.Fields {
+							if f.PlainGroup == "" || !have[f.JSON] {
+								continue
+							}
+							for _, g := range n.M.Fields {
+								if g.PlainGroup == f.PlainGroup && g != f && !have[g.JSON] && (g.Kind == gpb.KObject) {
+									reject(fmt.Sprintf("n%d:second-member-of-plain-oneof:%s", ni, g.JSON), "second-member-of-plain-oneof", gpb.Render(sp, &gpb.RenderOpts{Target: ni, Variant: "addmember", Raw: strconv.Quote(g.JSON) + `:{}`}), "object")
+								}
+							}
+						}
+					}
 				case gpb.SOneof:
 					if len(n.Mem) == 1 {
 						arm := n.Mem[0]
